@@ -72,7 +72,9 @@ func init() {
 	packet.VerifSetMonitorNICFrequency(24 * time.Hour)
 }
 
-// New returns a session over a recording connection.
+// New returns a session over a recording connection. The session's two wall-clock background
+// goroutines (minute purge loop, NIC monitor that SIGTERMs the process) are stopped: harness
+// sessions are driven explicitly and may live longer than a minute.
 func New(nic *packet.NICInfo) (*packet.Session, *RecConn) {
 	if nic == nil {
 		nic = DefaultNIC()
@@ -82,6 +84,7 @@ func New(nic *packet.NICInfo) (*packet.Session, *RecConn) {
 	if err != nil {
 		panic(err)
 	}
+	s.VerifStopTimers()
 	return s, conn
 }
 
@@ -96,5 +99,6 @@ func NewWith(nic *packet.NICInfo, probe, offline, purge time.Duration) (*packet.
 	if err != nil {
 		return nil, nil, err
 	}
+	s.VerifStopTimers()
 	return s, conn, nil
 }
